@@ -192,24 +192,28 @@ CHECKS = {
             "process in the same instant is not displaced (non-preemptive). Defect repaired: /repo 0e96376 (SP served one packet per "
             "class per pass).",
             "DESIGN.md section 4 C13, section 8"),
-    "C16": ("20 theorems: the ACK is the contiguous received prefix and monotone for every arrival sequence (C16_ack_is_prefix, "
+    "C16": ("26 theorems: the ACK is the contiguous received prefix and monotone for every arrival sequence (C16_ack_is_prefix, "
             "C16_ack_monotone, refutation of the pinned ACK choice); the repaired sender never raises for every Ack/Expire/StoreCb/Wake "
             "history; in every reachable state of the closed loop (sender, sink, two constant-delay wires, any finite drop sets per "
             "direction, Reno/CUBIC) nothing raises, last_ack <= sink prefix <= next_seq, last_ack is monotone, an unfinished transfer has "
-            "an armed timer event or a runnable sender on the agenda (cannot stop early), and a quiescent loop has delivered everything; a "
-            "retransmission happens only at the segment's own timer expiry or at a third-or-later duplicate ACK; over a loss-free path with "
-            "RTT below the RTO no segment is transmitted twice (C16_lossfree_no_retransmit, full) and the loss-free loop terminates "
-            "quiescent with everything delivered within an explicit fuel bound (C16_lossfree_terminates); the work of the loop is bounded "
-            "by the number of transmissions; the TCPSink.put body translated from /repo on every run equals the model (C16_gen_sink_put). 1000 (quick) / 20000 "
-            "(thorough) cases per run: sink sequences, whole closed-loop runs of the real sender/sink/wires compared event by event and "
-            "instant by instant, sender-alone histories.",
-            "PARTIAL in one clause: 'finitely many drops => eventually complete' is liveness: proved are the safety half (cannot go "
-            "quiescent early; quiescent => complete), termination of the loss-free loop, and that only (re)transmissions can keep the loop "
-            "busy; NOT proved is that with a non-empty finite drop set the number of retransmissions is bounded (needs real-time reasoning "
-            "about RTO doubling); it is tested by runs to quiescence on random drop patterns. lossfree_no_retransmit needs rtt0 != 2*delay "
-            "(at equality the timer's Timeout, scheduled earlier, wins the same-instant race against the ACK: a real boundary). Trusted besides the common base: Timer per C19, kernel order per C01, CUBIC cnt oracle. Repairs: 4cddda4 "
-            "(sink), 5f98ada, 5f6e664 (sender).",
-            "DESIGN.md section 4 C16, section 8"),
+            "an armed timer event or a runnable sender on the agenda, and a quiescent loop has delivered everything; a retransmission "
+            "happens only at the segment's own timer expiry or at a third-or-later duplicate ACK; over a loss-free path with RTT below the "
+            "RTO no segment is transmitted twice (C16_lossfree_no_retransmit); RELIABLE DELIVERY (Props/C16_Live.v, "
+            "C16_reliable_delivery): for every flow of whole segments, every delay d >= 0, every initial RTT estimate > 0, any two finite "
+            "drop lists, Reno or CUBIC with any cnt oracle, the loop never raises and ends with an empty agenda, last_ack = size and the "
+            "sink holding exactly [0,size) within the explicit bound 3 + Gnew*size + Cexp*Bexp agenda steps (C16_live_bound_unfolded; the "
+            "number of timer expiries of every run is bounded: C16_expiries_bounded; the RTO never falls below rtt0*(7/8)^size: "
+            "C16_rto_lower_bound), unless env.run(until=t_max) stops it first; the TCPSink.put body translated from /repo on every run "
+            "equals the model (C16_gen_sink_put). 1000 (quick) / 20000 (thorough) cases per run: sink sequences, whole closed-loop runs of "
+            "the real sender/sink/wires compared event by event and instant by instant, sender-alone histories.",
+            "Full over exact arithmetic (models use Q). Outside the theorems: binary64 rounding of instants and of the RTO estimator — "
+            "runs whose floats are not short dyadics are monitored, not compared; proving the liveness theorem exposed one such run in "
+            "which the real code stalled (zero-delay path, now + rto == now, the Timer never fired): repaired by 4170594, kept as corpus "
+            "case. Per-packet varying delays are outside the model (Wire with a constant delay_dist). lossfree_no_retransmit needs rtt0 != "
+            "2*delay (at equality the timer's Timeout, scheduled earlier, wins the same-instant race against the ACK: a real boundary). "
+            "Trusted besides the common base: Timer per C19, kernel order per C01, CUBIC cnt oracle. Repairs: 4cddda4 (sink), 5f98ada, "
+            "5f6e664, eae436e (sender), 4170594 (Timer).",
+            "DESIGN.md section 4 C16, sections 8.3, 8.6"),
     "C17": ("38 theorems about the Gallina model of TCPPacketGenerator.put/timeout_callback/run and CongestionControl/TCPReno/TCPCubic: "
             "send guard and consecutive MSS numbering, window respected at every emission, only a wake-up sends new data, Reno/CUBIC ACK "
             "rules, early duplicates, fast retransmit (ssthresh = max(2 MSS, cwnd/2), cwnd = ssthresh + 3 MSS), further duplicates, "
@@ -251,8 +255,10 @@ CHECKS = {
             "Full. Assumed as admissibility of the automaton (and checked on every observed execution): kernel facts K1 (URGENT before "
             "NORMAL, due events before the clock moves: C01) and K2 (Initialize before Interruption: C04). Outside: float rounding "
             "(dyadic inputs; extra float-mode cases go through the monitor only), callbacks that raise, restart(tau<=0). restart() of an "
-            "already-fired one-shot does not re-arm (unspecified by C19; proved as C19_expired_one_shot_never_refires). Repairs: f3ce555, "
-            "4f3b0bd, ca556aa.",
+            "already-fired one-shot does not re-arm (unspecified by C19; proved as C19_expired_one_shot_never_refires). Timer.stop / "
+            "Timer.restart (with the helper _arm inlined) are translated from /repo on every run and proved equal to the model's "
+            "do_stop / do_restart (C19_gen_timer_stop, C19_gen_timer_restart; _arm's float-rounding substitution is proved dead in "
+            "exact arithmetic). Repairs: f3ce555, 4f3b0bd, ca556aa, 4170594.",
             "DESIGN.md section 4 C19, section 8"),
     "C20": ("C20_same_events (for every kernel state type and step function the real-time run performs exactly the plain run's steps), "
             "C20_never_early, C20_sleeps_exact, C20_strict_iff, C20_nonstrict_never_raises, C20_proceeds_when_reached: proved for ALL "
